@@ -307,3 +307,25 @@ Example C12_tie_example :
   let marker := len ex_body - 4 - le_val (dropN (len ex_body - 4) ex_body) - 1 in
   is_ok (snd (run (takeN marker ex_body ++ dropN (marker + 1) ex_body))) = false.
 Proof. vm_compute. split; reflexivity. Qed.
+
+(* ====================================================================================
+   The BLOCK PARSER, translated (work package blockT): gen/Src3b.v holds ArchiveFileBlock::from and
+   ArchiveFileBlockType::try_from statement by statement (tools/src2v3_block.py); it IS Blocks.parse_block for
+   every stream, state, FILENAME_MAX_SIZE and discriminants.  The level-1 translations of the reader, the
+   repair loop and linear_extract call THIS function: "ArchiveFileBlock::from = Blocks.parse_block" is no
+   longer a trusted link.
+   ==================================================================================== *)
+From MLA Require SrcTie3Block SrcTie3Linear.
+From MLAGen Require Src3b.
+Theorem C12_tie_block_from_src :
+  forall (S : Stream) (FNMAX T_START T_CONTENT T_EOA T_EOF : N) (s : st S),
+    Src3b.ArchiveFileBlock_from S FNMAX T_START T_CONTENT T_EOA T_EOF 636 s =
+    parse_block FNMAX T_START T_CONTENT T_EOA T_EOF S s.
+Proof. exact SrcTie3Block.block_from_src. Qed.
+Print Assumptions C12_tie_block_from_src.
+Theorem C12_tie_linear_extract_sim_full : ltac:(let t := type of @SrcTie3Linear.linear_extract_sim_full in exact t).
+Proof. exact (@SrcTie3Linear.linear_extract_sim_full). Qed.
+Print Assumptions C12_tie_linear_extract_sim_full.
+Theorem C12_tie_linear_extract_calls_translated_from : ltac:(let t := type of @SrcTie3Linear.linear_extract_calls_translated_from in exact t).
+Proof. exact (@SrcTie3Linear.linear_extract_calls_translated_from). Qed.
+Print Assumptions C12_tie_linear_extract_calls_translated_from.
